@@ -381,8 +381,8 @@ func replayFinding(p *PropCheck, f Finding) (bool, string, string) {
 	meta, _ := json.MarshalIndent(map[string]string{"property": p.ID, "signature": f.Signature(), "entry": f.Entry, "pkg": f.PkgDir, "repo": repoDir()}, "", " ")
 	os.WriteFile(filepath.Join(dir, "meta.json"), meta, 0o644)
 	tmo := "120s"
-	if f.Kind == "hang" {
-		tmo = "20s"
+	if f.Kind == "hang" || f.Kind == "blocked" {
+		tmo = "25s"
 	}
 	test := "TestVerifReplay"
 	if f.Test != "" {
